@@ -108,11 +108,12 @@ def ensure(variants=("omp", "serial"), repo=None, jobs=16):
                 shutil.rmtree(odir)
             else:
                 os.rename(odir, final)
-        # prune old hashes (keep at most 3 newest)
+        # prune old hashes (keep the 6 newest, and nothing touched during the last 3 hours: concurrent checks of scratch trees may be using them)
         root = os.path.join(CACHE, "build")
         ds = sorted((os.path.getmtime(os.path.join(root, d)), d) for d in os.listdir(root))
-        for _, d in ds[:-2]:
-            if d != os.path.basename(bdir):
+        import time
+        for mt, d in ds[:-6]:
+            if d != os.path.basename(bdir) and time.time() - mt > 3 * 3600:
                 shutil.rmtree(os.path.join(root, d), ignore_errors=True)
     return {v: os.path.join(bdir, v, SO_NAME) for v in variants}
 
